@@ -8,6 +8,7 @@ package main
 // would leave a marker.
 
 import (
+	"net"
 	"encoding/hex"
 	"encoding/json"
 	"fmt"
@@ -438,6 +439,13 @@ func runC13(c *Ctx) {
 		host := func() string {
 			h := pickStr("10.0.0.1", "example.org", "a.b.c", uni())
 			h = strings.ReplaceAll(h, ":", "_")
+			if ifs, err := net.Interfaces(); err == nil { // a host that is the name of a local network interface ("lo") is
+				for _, itf := range ifs { // replaced by that interface's address: the builder's documented assumption, not a case
+					if itf.Name == h {
+						h = "h-" + h
+					}
+				}
+			}
 			switch r.Intn(4) {
 			case 0:
 				if valid {
